@@ -13,6 +13,12 @@ for sd in seeds:
     if args and prop not in args and sd not in args:
         continue
     patch = os.path.join(ROOT, "seeded", sd, "patch.diff")
+    meta = json.load(open(os.path.join(ROOT, "seeded", sd, "meta.json")))
+    if meta.get("status") == "retired":  # no longer a property-breaking change on the current /repo (see meta.json)
+        res[sd] = {"property": prop, "tier": tier, "exit": None, "caught": None, "violations": [], "harness_errors": [], "wall_s": 0, "summary": "retired: " + meta.get("retired_reason", "")[:200]}
+        print(sd, "RETIRED", flush=True)
+        json.dump(res, open(resf, "w"), indent=1, sort_keys=True)
+        continue
     assert subprocess.run(["git", "-C", "/repo", "status", "--porcelain", "--untracked-files=no"], capture_output=True, text=True).stdout.strip() == "", "/repo not clean"
     t0 = time.time()
     try:
